@@ -291,4 +291,76 @@ def sweep(ctx, n_rounds):
                 if getattr(o, attr) is not None or getattr(o, other) is not None or not refused:
                     report(f"none-not-stored:{attr}", f"after `{attr} = None` on a {cls}: {attr}={getattr(o, attr)!r}, {other}={getattr(o, other)!r}, getB refused={refused}",
                            {"class": cls, "attribute": attr})
+        # arguments of the transform methods: a malformed angle / anchor must raise the library's input error at the call and leave the object as it was
+        # (repaired: complex or out-of-range angle escaped as TypeError / OverflowError; the empty (0,3) anchor passed the check and failed later)
+        for label, call in ARG_CASES:
+            done += 1
+            o = magpy.Sensor(position=(1, 2, 3))
+            before = snapshot(o)
+            try:
+                call(o)
+                err = None
+            except MagpylibBadUserInput:
+                err = "BadUserInput"
+            except Exception as e:  # noqa: BLE001
+                err = "Foreign:" + type(e).__name__
+            if err is None:
+                report(f"malformed-accepted:{label}", f"{label} accepted", {"call": label})
+            elif err != "BadUserInput":
+                report(f"foreign-error:{label}:{err}", f"{label} raised {err} instead of the library's input error", {"call": label})
+            elif snapshot(o) != before:
+                report(f"rejected-changed-object:{label}", f"rejected call {label} changed the object", {"call": label})
+        stats["observed_not_recorded"] = observe(magpy, MagpylibBadUserInput)
     return fails, {"c17_assignments": done, **stats}
+
+
+ARG_CASES = [
+    ("rotate_from_angax(angle=1j)", lambda o: o.rotate_from_angax(1j, "z")),
+    ("rotate_from_angax(angle=10**400)", lambda o: o.rotate_from_angax(10**400, "z")),
+    ("rotate_from_angax(angle=[1, 1j])", lambda o: o.rotate_from_angax([1, 1j], "z")),
+    ("rotate_from_angax(anchor=zeros((0,3)))", lambda o: o.rotate_from_angax(45, "z", anchor=np.zeros((0, 3)))),
+    ("rotate(anchor=zeros((0,3)))", lambda o: o.rotate(R.from_rotvec((0, 0, 1)), anchor=np.zeros((0, 3)))),
+    ("rotate_from_euler(anchor=zeros((0,3)))", lambda o: o.rotate_from_euler(45, "z", anchor=np.zeros((0, 3)))),
+    ("rotate_from_angax(anchor=[])", lambda o: o.rotate_from_angax(45, "z", anchor=[])),
+    ("rotate_from_angax(axis=(0,0,0))", lambda o: o.rotate_from_angax(45, (0, 0, 0))),
+    ("rotate_from_angax(degrees=1)", lambda o: o.rotate_from_angax(45, "z", degrees=1)),
+    ("move(start=1.0)", lambda o: o.move((1, 2, 3), start=1.0)),
+]
+
+
+def observe(magpy, Bad):
+    """behaviour that is NOT counted as a violation (pinned by tests, or accepted beyond the documented format): what the real code does
+    now, so that a change shows in the evidence"""
+    def kind(f):
+        try:
+            f()
+            return "accepted"
+        except Bad:
+            return "BadUserInput"
+        except Exception as e:  # noqa: BLE001
+            return "Foreign:" + type(e).__name__
+    d = magpy.misc.Dipole(moment=(1, 2, 3))
+    S = magpy.Sensor
+    return {
+        # foreign errors pinned by tests
+        "getB(output='bad') [tests/test_getBH_interfaces.py::test_getBH_bad_output_type pins ValueError]": kind(lambda: d.getB((1, 2, 3), output="bad")),
+        "getB(output=1)": kind(lambda: d.getB((1, 2, 3), output=1)),
+        "getB(pixel_agg='bad_aggregator') [tests/test_getBH_level2.py::test_pixel_agg_heterogeneous_pixel_shapes pins AttributeError]": kind(lambda: d.getB((1, 2, 3), pixel_agg="bad_aggregator")),
+        "getB(pixel_agg=1)": kind(lambda: d.getB((1, 2, 3), pixel_agg=1)),
+        "getB(pixel_agg='pi')": kind(lambda: d.getB((1, 2, 3), pixel_agg="pi")),
+        "getB(pixel_agg='any')": kind(lambda: d.getB((1, 2, 3), pixel_agg="any")),
+        "getB(pixel_agg='argmax')": kind(lambda: d.getB((1, 2, 3), pixel_agg="argmax")),
+        # accepted beyond the documented format
+        "rotate_from_angax(anchor=0j)": kind(lambda: S().rotate_from_angax(45, "z", anchor=0j)),
+        "rotate_from_angax(anchor=False)": kind(lambda: S().rotate_from_angax(45, "z", anchor=False)),
+        "move(start=True)": kind(lambda: S().move((1, 2, 3), start=True)),
+        "rotate_from_angax(angle=[])": kind(lambda: S().rotate_from_angax([], "z")),
+        "rotate_from_angax(degrees=np.True_)": kind(lambda: S().rotate_from_angax(45, "z", degrees=np.True_)),
+        "Sphere(diameter=nan)": kind(lambda: magpy.magnet.Sphere(diameter=float("nan"), polarization=(0, 0, 1))),
+        "Cuboid(dimension=(1, nan, 3))": kind(lambda: magpy.magnet.Cuboid(dimension=(1, float("nan"), 3), polarization=(0, 0, 1))),
+        "CylinderSegment(dimension=(1, 2, 1, nan, 90))": kind(lambda: magpy.magnet.CylinderSegment(dimension=(1, 2, 1, float("nan"), 90), polarization=(0, 0, 1))),
+        "Sensor(position=(nan, 0, 0))": kind(lambda: S(position=(float("nan"), 0, 0))),
+        # same coercion as the repaired make_float_array, outside attribute assignment
+        "getB(observers=(1, None, 3))": kind(lambda: d.getB((1, None, 3))),
+        "getB(observers=(1, '2', 3))": kind(lambda: d.getB((1, "2", 3))),
+    }
